@@ -4,39 +4,7 @@ package wsflate
 
 import (
 	"io"
-
-	"github.com/gobwas/httphead"
-	"github.com/gobwas/ws"
 )
-
-// C15_parameters_bytes: arbitrary bytes as permessage-deflate parameters through the real
-// option scanner into Parse / Negotiate.
-func C15_parameters_bytes() {
-	hole := vBytes("h", 4+vTier())
-	v := append([]byte("permessage-deflate; "), hole...)
-	e := Extension{Parameters: DefaultParameters}
-	index := -1
-	var cur httphead.Option
-	httphead.ScanOptions(v, func(i int, name, attr, val []byte) httphead.Control {
-		if i != index {
-			if index >= 0 {
-				e.Negotiate(cur)
-			}
-			index = i
-			cur = httphead.Option{Name: name}
-		}
-		if attr != nil {
-			cur.Parameters.Set(attr, val)
-		}
-		return httphead.ControlContinue
-	})
-	if index >= 0 {
-		e.Negotiate(cur)
-		var p Parameters
-		p.Parse(cur)
-	}
-	vAssert(true, "params.returned")
-}
 
 type vBadDecomp struct {
 	r   io.Reader
@@ -55,13 +23,4 @@ func (d *vBadDecomp) Read(p []byte) (int, error) {
 		return 0, io.EOF
 	}
 	return n, nil
-}
-
-// C15_decompress_frame: DecompressFrame with any frame header and a misbehaving decompressor.
-func C15_decompress_frame() {
-	how := vChoose("how", 3)
-	h := Helper{Decompressor: func(r io.Reader) Decompressor { return &vBadDecomp{r: r, how: how} }}
-	f := ws.Frame{Header: vHdr(), Payload: vBytes("p", vChoose("n", 4))}
-	h.DecompressFrame(f)
-	vAssert(true, "decompress.returned")
 }
